@@ -9,7 +9,8 @@ Local Open Scope string_scope.
 Record fact := {
   cf_field_type : string;   (* declared type of the Mux field f that is incremented, package names resolved to import paths *)
   cf_shape : string;        (* what is rendered into the id: "AddUint64" = atomic.AddUint64(&mux.f, d) | "MethodAdd" = mux.f.Add(d),
-                               directly, through uint64(...) or through one local defined once by it | "other" | "none" *)
+                               directly or through uint64(...), one local assigned once, a uint64 parameter with one call site, or the
+                               result of a one-line accessor (gen/c05counter) | "AddInt64" | "other" | "none" *)
   cf_delta : string;        (* d *)
   cf_base : string;         (* base of the rendering: reported, not a width matter (the dynamic check sees the digits) *)
   cf_renderings : nat;      (* counter-related strconv.AppendUint / FormatUint calls reachable from ServeHTTP *)
@@ -18,12 +19,16 @@ Record fact := {
 
 (** bits of the counter as declared; 0 = not a recognised 64-bit counter *)
 Definition counter_width (f : fact) : N :=
-  if String.eqb (cf_field_type f) "uint64" || String.eqb (cf_field_type f) "sync/atomic.Uint64" then 64%N else 0%N.
+  if String.eqb (cf_field_type f) "uint64" || String.eqb (cf_field_type f) "sync/atomic.Uint64"
+     || String.eqb (cf_field_type f) "int64" || String.eqb (cf_field_type f) "sync/atomic.Int64" then 64%N else 0%N.
 
 Definition check_counter (f : fact) : bool :=
   (counter_width f =? 64)%N
   && ((String.eqb (cf_field_type f) "uint64" && String.eqb (cf_shape f) "AddUint64")
-      || (String.eqb (cf_field_type f) "sync/atomic.Uint64" && String.eqb (cf_shape f) "MethodAdd"))
+      || (String.eqb (cf_field_type f) "sync/atomic.Uint64" && String.eqb (cf_shape f) "MethodAdd")
+      (* a signed 64-bit counter reaches the rendering only through uint64(...), a bijection: 2^64 distinct values too *)
+      || (String.eqb (cf_field_type f) "int64" && String.eqb (cf_shape f) "AddInt64")
+      || (String.eqb (cf_field_type f) "sync/atomic.Int64" && String.eqb (cf_shape f) "MethodAdd"))
   && String.eqb (cf_delta f) "1"
   && Nat.eqb (cf_renderings f) 1
   && Nat.eqb (cf_uses f) 1.     (* the increment is the only access: nothing resets or reads the counter elsewhere *)
